@@ -4,7 +4,7 @@ use rand::{rngs::StdRng, Rng};
 
 pub fn leaf_shape(r: &mut StdRng) -> Shape {
     use Shape::*;
-    match r.gen_range(0..22) {
+    match r.gen_range(0..20) {
         0 => Bool,
         1 => U8,
         2 => I8,
@@ -17,8 +17,7 @@ pub fn leaf_shape(r: &mut StdRng) -> Shape {
         16 => Str,
         17 => Bytes,
         18 => Unit,
-        19 => UnitStruct,
-        _ => Fix(r.gen(), IntK::ALL[r.gen_range(0..8)]),
+        _ => UnitStruct,
     }
 }
 
